@@ -38,6 +38,14 @@ fn hex(b: &[u8]) -> String {
     s
 }
 
+fn words(b: &[u8]) -> Vec<u32> {
+    assert!(b.len() % 4 == 0, "word string must be a multiple of 4 bytes");
+    b.chunks(4).map(|c| u32::from_le_bytes(c.try_into().unwrap())).collect()
+}
+fn unwords(w: &[u32]) -> Vec<u8> {
+    w.iter().flat_map(|x| x.to_le_bytes()).collect()
+}
+
 #[derive(Clone, Copy)]
 enum Act {
     Cap(usize),
@@ -193,6 +201,16 @@ fn opt_pk(s: &str) -> Option<PublicKey> {
     if s == "none" { None } else { Some(PublicKey::try_from(unhex(s).as_slice()).unwrap()) }
 }
 
+// The hook's stream mutex gets poisoned when secure_random() runs dry (the assert fires while the
+// lock is held); after that every later draw, setrand and randleft panics for the rest of the
+// process.  So cases that would overdraw an installed stream are refused up front.
+pub(crate) fn rand_short(need: usize) -> Option<String> {
+    match kc::verif_hooks::random_stream_remaining() {
+        Some(have) if have < need => Some(format!("outcome=rand_short need={} have={}", need, have)),
+        _ => None,
+    }
+}
+
 fn run(a: &[&str]) -> String {
     match a[0] {
         "enc_chunks" => {
@@ -222,6 +240,10 @@ fn run(a: &[&str]) -> String {
             let e = opt_sk(a[4]);
             let epk = opt_pk(a[5]);
             let pk = if a[6] == "none" { None } else { Some(PayloadKey::new(&unhex(a[6]))) };
+            let need = if pk.is_none() { 32 } else { 0 } + if e.is_none() { 32 } else { 0 };
+            if let Some(msg) = rand_short(need) {
+                return msg;
+            }
             let res = kc::encrypt::key_encrypt(
                 &mut r, &mut w, &s, &spk, &rpk, e.as_ref(), epk.as_ref(), pk.as_ref(), AsymFileFormat::V1,
             );
@@ -301,6 +323,9 @@ fn run(a: &[&str]) -> String {
             let e = opt_sk(a[4]);
             let epk = opt_pk(a[5]);
             let pk = PayloadKey::new(&unhex(a[7]));
+            if let Some(msg) = rand_short(if e.is_none() { 32 } else { 0 }) {
+                return msg;
+            }
             match kc::noise_encrypt(&s, &spk, &rpk, e.as_ref(), epk.as_ref(), &unhex(a[6]), &pk) {
                 Ok(m) => format!("outcome=ok out={} hh={}", hex(&m.ciphertext), hex(&m.handshake_hash)),
                 Err(e) => format!("outcome=err:{} out=-", noise_class(&e.to_string())),
@@ -317,6 +342,48 @@ fn run(a: &[&str]) -> String {
                 ),
                 Err(e) => format!("outcome=err:{} out=-", noise_class(&e.to_string())),
             }
+        }
+        "setrand" => {
+            // setrand <hex|-|none|empty>: "-"/"none" removes the stream, "empty" installs a zero-length one
+            let st = match a[1] {
+                "-" | "none" => None,
+                "empty" => Some(Vec::new()),
+                h => Some(unhex(h)),
+            };
+            kc::verif_hooks::set_random_stream(st);
+            "outcome=ok".into()
+        }
+        "randleft" => match kc::verif_hooks::random_stream_remaining() {
+            Some(n) => format!("outcome=ok n={}", n),
+            None => "outcome=ok n=none".into(),
+        },
+        "salsa_xor" => {
+            // tmp inn (little-endian words)
+            let mut tmp = words(&unhex(a[1]));
+            let inn = words(&unhex(a[2]));
+            let mut out = vec![0u32; 16];
+            kc::verif_hooks::scrypt_salsa_xor(&mut tmp, &inn, &mut out);
+            format!("outcome=ok out={}{}", hex(&unwords(&tmp)), hex(&unwords(&out)))
+        }
+        "block_mix" => {
+            // r inn
+            let r: usize = a[1].parse().unwrap();
+            let inn = words(&unhex(a[2]));
+            let mut tmp = vec![0u32; 16];
+            let mut out = vec![0u32; inn.len()];
+            kc::verif_hooks::scrypt_block_mix(&mut tmp, &inn, &mut out, r);
+            format!("outcome=ok out={}", hex(&unwords(&out)))
+        }
+        "smix" => {
+            // r N b
+            let r: usize = a[1].parse().unwrap();
+            let n: usize = a[2].parse().unwrap();
+            let mut b = unhex(a[3]);
+            let mut x = vec![0u32; 32 * r];
+            let mut y = vec![0u32; 32 * r];
+            let mut v = vec![0u32; 32 * n * r];
+            kc::verif_hooks::scrypt_smix(&mut b, r, n, &mut v, &mut x, &mut y);
+            format!("outcome=ok out={}", hex(&b))
         }
         op if op.starts_with("z_") => zero::run(a),
         _ => "outcome=badop".into(),
@@ -341,5 +408,6 @@ fn main() {
             Err(_) => "outcome=panic".to_string(),
         };
         writeln!(out, "{} {}", id, body).unwrap();
+        out.flush().unwrap(); // one reply per request line, usable interactively over pipes
     }
 }
